@@ -80,13 +80,17 @@ let () =
                            g_always = bool al; g_never = bool ne; g_dontdisc = bool dd; g_xvp = bool xv; g_ft = bool ft });
         seen_log := 0; observe "config"
     | "accept" :: d :: rest ->
-        let dec = (match d with "h" -> DHold | "r" -> DRefuse | _ -> DAccept) in
+        let dec = (match d with "h" -> DHold | "r" -> DRefuse | "n" -> DNonblock | "m" -> DNonblockLate | _ -> DAccept) in
         let (pre, po) = (match rest with "closed" :: _ -> ([], false) | hx :: _ -> (unhex hx, true) | [] -> ([], true)) in
         apply (OAccept (dec, pre, po)); observe "accept"
     | "laccept" :: d :: rest ->
-        let dec = (match d with "h" -> DHold | "r" -> DRefuse | _ -> DAccept) in
+        let dec = (match d with "h" -> DHold | "r" -> DRefuse | "n" -> DNonblock | "m" -> DNonblockLate | _ -> DAccept) in
         let (pre, po) = (match rest with "closed" :: _ -> ([], false) | hx :: _ -> (unhex hx, true) | [] -> ([], true)) in
         apply (OLAccept (dec, pre, po)); observe "laccept"
+    | "inetd" :: d :: rest ->
+        let dec = (match d with "h" -> DHold | "r" -> DRefuse | "n" -> DNonblock | "m" -> DNonblockLate | _ -> DAccept) in
+        let (pre, po) = (match rest with "closed" :: _ -> ([], false) | hx :: _ -> (unhex hx, true) | [] -> ([], true)) in
+        apply (OInetd (dec, pre, po)); observe "inetd"
     | ["in"; k; hx] -> apply (OIn (nat k, unhex hx)); observe "in"
     | ["in"; k] -> apply (OIn (nat k, [])); observe "in"
     | ["peerclose"; k] -> apply (OPeerClose (nat k)); observe "peerclose"
